@@ -989,6 +989,11 @@ func (e *Exec) globalPtr(g *ssa.Global) *Pointer {
 		// external global: only error sentinels are modelled
 		if types.Identical(elem, types.Universe.Lookup("error").Type()) {
 			v = e.errorVal(g.Pkg.Pkg.Path() + "." + g.Name())
+		} else if isString(elem) {
+			// external string variables (terminal colour codes of the default
+			// palettes) are placeholders: their package init is not run
+			v = e.constString("\x1b[" + g.Name() + "m")
+			e.note("placeholder external string global " + g.Pkg.Pkg.Path() + "." + g.Name())
 		} else {
 			panic(unsupported{"external global " + g.String()})
 		}
